@@ -67,6 +67,10 @@ static int parse_redirect(reproc_redirect *redirect,
     }
   }
 
+  // Only stderr can be redirected to the child process stdout.
+  ASSERT_EINVAL(redirect->type != REPROC_REDIRECT_STDOUT ||
+                stream == REPROC_STREAM_ERR);
+
   return 0;
 }
 
